@@ -66,11 +66,15 @@ class Ctx:
         self.ghost = {}
         self.symbols = []  # named input symbols (z3 consts) for model reporting
         self.in_setup = True
+        self.inv_mode = 'goal'  # 'assume' while a loop invariant is being assumed (existentials may be Skolemised)
         self.nchecks = 0
 
     # ---- symbols
     def name(self, base):
         base = base.replace("'", '^').replace('"', '^').replace('|', '!').replace('\\', '!').replace(' ', '_')
+        if len(base) > 48:
+            import hashlib
+            base = base[:36] + '~' + hashlib.sha1(base.encode()).hexdigest()[:8]
         n = self.counter.get(base, 0)
         self.counter[base] = n + 1
         return base if n == 0 else '%s!%d' % (base, n)
@@ -187,6 +191,11 @@ class Ctx:
     # ---- obligations emitted mid-path
     def oblige(self, clause, goal, kind='invariant', info=None, bounded=None):
         self.obligations.append((clause, list(self.hyps()), zbool(goal), kind, info, bounded))
+
+    def lemma(self, clause, formula, info=None):
+        """assert-then-assume: an intermediate fact is proved from the current hypotheses and then available."""
+        self.oblige('lemma:' + clause, formula, kind='lemma', info=info)
+        self.assume(formula)
 
     def note(self, text):
         self.notes.append(text)
